@@ -10,6 +10,7 @@ pub mod c14;
 pub mod c15;
 pub mod c13;
 pub mod c16;
+pub mod c18;
 use crate::Ctx;
 pub fn run(prop: &str, ctx: &mut Ctx) -> bool {
     match prop {
@@ -30,6 +31,7 @@ pub fn run(prop: &str, ctx: &mut Ctx) -> bool {
         "C15" => c15::run(ctx),
         "C13" => c13::run(ctx),
         "C16" => c16::run(ctx),
+        "C18" => c18::run(ctx),
         _ => return false,
     }
     true
